@@ -249,6 +249,8 @@ package keeper
 //@        duRec(ctx, params).BlockNumber == ctx.height && duRec(ctx, params).LzTxNonce == params.LzNonce &&
 //@        duRec(ctx, params).CompleteBlockNumber == ctx.height + g("x/operator/types.UnbondingExpiration") &&
 //@        duRec(ctx, params).Amount == duRec(ctx, params).ActualCompletedAmount && val(duRec(ctx, params).Amount) >= 0
+//@   ensures[C01.uf.owed]   err == nil ==> duRec(ctx, params).ActualCompletedAmount == duRec(ctx, params).Amount && val(duRec(ctx, params).Amount) >= 0 &&
+//@        val(duRec(ctx, params).Amount) == old(pT(ctx, params.OperatorAddress, duAsset(params))) - pT(ctx, params.OperatorAddress, duAsset(params))
 //@   ensures[C03.uf.index]  err == nil ==>
 //@        get(ctx, "delegation", stIdxKey(duStaker(params), duAsset(params), params.LzNonce)) == urRawKey(accstr(params.OperatorAddress), ctx.height, params.LzNonce, hashstr(params.TxHash)) &&
 //@        get(ctx, "delegation", pendIdxKey(ctx.height + g("x/operator/types.UnbondingExpiration"), params.LzNonce)) == urRawKey(accstr(params.OperatorAddress), ctx.height, params.LzNonce, hashstr(params.TxHash))
